@@ -1909,6 +1909,187 @@ def gen_part4(ctx):
 
 
 # ---------------------------------------------------------------------------
+# write -> read bit-identity through EVERY reader of xarray_utils, with its matching writer,
+# for {no lead, time, sample, sample+time} x {volume, surface, sim_time, tracers, covariates}
+# ---------------------------------------------------------------------------
+def gen_readers(ctx):
+    rng = ctx.rng
+    quick = ctx.tier == 'quick'
+    leads = [(None, None), (None, 8), (6, None), (6, 8), (7, 9), (3, 3), (4, 4), (2, 3)]
+    n = 0
+    for rep in range(1 if quick else 4):
+        for S, T in leads:
+            for K in ([2, 3] if quick else [2, 3, 4]):
+                if rep == 0 and (S, T) == (3, 3): K = 3          # the coinciding case: S == T == K
+                nt = int(rng.integers(0, 4))
+                yield 'xr_readers', {'K': K, 'S': S, 'T': T, 'vert': ['pressure', 'sigma'][n % 2],
+                                     'tracers': ['q', 'clw', 'sp_tr'][:nt], 'seed': int(rng.integers(0, 10 ** 6)),
+                                     'grid': [[3, 4, 10, 5], [2, 3, 7, 4]][n % 2]}
+                n += 1
+
+
+def _rd_values(rng, shape):
+    return rng.integers(-40, 41, size=shape).astype(np.float64) / 8 + rng.integers(1, 1000, size=shape) / 2.0 ** 30
+
+
+def _same_leaves(ctx, what, got, want, info):
+    """structure first, then shapes, then dtype and bits"""
+    def paths(t, pre=()):
+        if isinstance(t, dict):
+            out = {}
+            for k, v in t.items(): out.update(paths(v, pre + (k,)))
+            return out
+        return {pre: t}
+    g, w = paths(got), paths(want)
+    if set(g) != set(w):
+        return ctx.oracle(C19_XR, False, dict(info, check=what + ': tree structure', got=sorted(map(str, g)), want=sorted(map(str, w))))
+    ok = True
+    for k in w:
+        a, b = np.asarray(g[k]), np.asarray(w[k])
+        if a.shape != b.shape:
+            ok = ctx.oracle(C19_XR, False, dict(info, check=what + ': shape read back', leaf='/'.join(k), got=list(a.shape), want=list(b.shape)))
+        elif a.dtype != b.dtype or a.tobytes() != b.tobytes():
+            ok = ctx.oracle(C19_XR, False, dict(info, check=what + ': values read back bit-identical', leaf='/'.join(k),
+                                                dtypes=[str(a.dtype), str(b.dtype)]))
+    if ok: ctx.oracle(C19_XR, True)
+    return ok
+
+
+def r_readers(ctx, a):
+    import functools
+    x = XA(); xu = x.xu
+    K, S, T = a['K'], a['S'], a['T']
+    lw, tw, ln, lt = a['grid']
+    grid = x.sh.Grid(longitude_wavenumbers=lw, total_wavenumbers=tw, longitude_nodes=ln, latitude_nodes=lt)
+    rng = np.random.Generator(np.random.PCG64(a['seed']))
+    if a['vert'] == 'pressure':
+        vert = x.vi.PressureCoordinates(np.sort(rng.uniform(10, 1000, size=K)))
+    else:
+        vert = x.sc.SigmaCoordinates.equidistant(K)
+    cs = x.cs.CoordinateSystem(grid, vert)
+    lead = (() if S is None else (S,)) + (() if T is None else (T,))
+    lead_names = (() if S is None else ('sample',)) + (() if T is None else ('time',))
+    times = None if T is None else 0.25 * np.arange(T)
+    sids = None if S is None else np.arange(S)
+    vol, surf = lead + cs.nodal_shape, lead + cs.surface_nodal_shape
+    info = {'S': S, 'T': T, 'K': K, 'lead': list(lead)}
+    ctx.count('readers:lead=' + ('+'.join(lead_names) or 'none'))
+    if S is not None and T is not None and S == T: ctx.count('readers:S==T' + ('==K' if S == K else ''))
+    kw = dict(coords=cs, times=times, sample_ids=sids)
+    def tracers(shape_of):
+        return {nm: _rd_values(rng, shape_of(nm)) for nm in a['tracers']}
+    tr_shape = lambda nm: surf if nm == 'sp_tr' else vol       # one surface tracer
+    def dims_ok(ds, name, want):
+        return ctx.oracle(C19_XR, tuple(ds[name].dims) == tuple(want),
+                          dict(info, check='dimension names', var=name, got=list(ds[name].dims), want=list(want)))
+    def guarded(what, fn):
+        try:
+            return True, fn()
+        except Exception as e:
+            ctx.oracle(C19_XR, False, dict(info, check=what + ': unexpected exception', error=repr(e)[:300]))
+            return False, None
+
+    # ---- primitive-equation states: State, StateWithTime --------------------------------------------
+    pe = {'vorticity': _rd_values(rng, vol), 'divergence': _rd_values(rng, vol), 'temperature_variation': _rd_values(rng, vol),
+          'log_surface_pressure': _rd_values(rng, surf), 'tracers': tracers(tr_shape)}
+    ok, ds = guarded('data_to_xarray(pe)', lambda: xu.data_to_xarray(dict(pe), **kw))
+    if ok:
+        dims_ok(ds, 'vorticity', lead_names + ('level', 'lon', 'lat'))
+        dims_ok(ds, 'log_surface_pressure', lead_names + ('surface', 'lon', 'lat'))
+        ok, got = guarded('xarray_to_primitive_eq_data', lambda: xu.xarray_to_primitive_eq_data(ds, tracers_to_include=a['tracers']))
+        if ok: _same_leaves(ctx, 'xarray_to_primitive_eq_data', {k: v for k, v in got.items() if k != 'sim_time' or v is not None}, pe, info)
+    pet = dict(pe, sim_time=_rd_values(rng, lead))
+    ok, ds = guarded('data_to_xarray(pet)', lambda: xu.data_to_xarray(dict(pet), **kw))
+    if ok:
+        dims_ok(ds, 'sim_time', lead_names)
+        ok, got = guarded('xarray_to_primitive_equations_with_time_data',
+                          lambda: xu.xarray_to_primitive_equations_with_time_data(ds, tracers_to_include=a['tracers']))
+        if ok: _same_leaves(ctx, 'xarray_to_primitive_equations_with_time_data', got, pet, info)
+        # renaming wrappers around the same writer/reader
+        ren = {'VO': 'vorticity', 'DIV': 'divergence', 'nondim_time': 'sim_time'}
+        ok, dsr = guarded('data_to_xarray_with_renaming', lambda: xu.data_to_xarray_with_renaming(
+            dict(pet), to_xarray_fn=xu.data_to_xarray, renaming_dict=ren, **kw))
+        if ok:
+            ctx.oracle(C19_XR, 'VO' in dsr and 'vorticity' not in dsr and 'nondim_time' in dsr,
+                       dict(info, check='data_to_xarray_with_renaming uses the external names', vars=sorted(map(str, dsr.data_vars))))
+            ok, got = guarded('xarray_to_data_with_renaming', lambda: xu.xarray_to_data_with_renaming(
+                dsr, xarray_to_data_fn=functools.partial(xu.xarray_to_primitive_equations_with_time_data,
+                                                        tracers_to_include=a['tracers']), renaming_dict=ren))
+            if ok: _same_leaves(ctx, 'xarray_to_data_with_renaming', got, pet, info)
+
+    # ---- shallow water ---------------------------------------------------------------------------------
+    sw = {'vorticity': _rd_values(rng, vol), 'divergence': _rd_values(rng, vol), 'potential': _rd_values(rng, vol)}
+    ok, ds = guarded('data_to_xarray(sw)', lambda: xu.data_to_xarray(dict(sw), **kw))
+    if ok:
+        ok, got = guarded('xarray_to_shallow_water_eq_data', lambda: xu.xarray_to_shallow_water_eq_data(ds))
+        if ok: _same_leaves(ctx, 'xarray_to_shallow_water_eq_data', got, sw, info)
+
+    # ---- xarray_to_data_dict: (time, level, lon, lat) datasets only ---------------------------------------
+    if S is None and T is not None:
+        dd = {'a': _rd_values(rng, vol), 'b': _rd_values(rng, vol)}
+        ok, ds = guarded('data_to_xarray(dd)', lambda: xu.data_to_xarray(dict(dd), **kw))
+        if ok:
+            ds['c'] = (('time', 'lon', 'lat'), _rd_values(rng, lead + cs.horizontal.nodal_shape))
+            ok, got = guarded('xarray_to_data_dict', lambda: xu.xarray_to_data_dict(ds))
+            if ok: _same_leaves(ctx, 'xarray_to_data_dict', got, dict(dd, c=np.expand_dims(ds['c'].values, -3)), info)
+
+    # ---- weatherbench state + dynamic covariates (merged dataset, as the pipelines build it) --------------
+    sim_time = _rd_values(rng, lead)
+    wb = {'u': _rd_values(rng, vol), 'v': _rd_values(rng, vol), 't': _rd_values(rng, vol), 'z': _rd_values(rng, vol),
+          'sim_time': sim_time, 'tracers': tracers(tr_shape), 'diagnostics': {}}
+    cov = {'sea_surface_temperature': _rd_values(rng, surf), 'sea_ice_cover': _rd_values(rng, surf),
+           'cloud_cover': _rd_values(rng, vol), 'sim_time': sim_time}
+    ok1, ds_state = guarded('data_to_xarray(wb)', lambda: xu.data_to_xarray({k: v for k, v in wb.items() if k != 'diagnostics'}, **kw))
+    ok2, ds_cov = guarded('dynamic_covariate_data_to_xarray', lambda: xu.dynamic_covariate_data_to_xarray(dict(cov), **kw))
+    if ok2:
+        dims_ok(ds_cov, 'sea_surface_temperature', lead_names + ('lon', 'lat'))
+        dims_ok(ds_cov, 'cloud_cover', lead_names + ('level', 'lon', 'lat'))
+        dims_ok(ds_cov, 'sim_time', lead_names)
+    if ok1 and ok2:
+        ds = x.xarray.merge([ds_state, ds_cov])
+        names = ['sea_surface_temperature', 'cloud_cover', 'sea_ice_cover']
+        cov_fn = functools.partial(xu.xarray_to_dynamic_covariate_data, covariates_to_include=names)
+        want_wb = dict(wb, diagnostics={'sea_surface_temperature': cov['sea_surface_temperature'], 'cloud_cover': cov['cloud_cover']})
+        wb_fn = functools.partial(xu.xarray_to_weatherbench_data, tracers_to_include=a['tracers'],
+                                  diagnostics_to_include=['sea_surface_temperature', 'cloud_cover'])
+        ok, got = guarded('xarray_to_weatherbench_data', lambda: wb_fn(ds))
+        if ok: _same_leaves(ctx, 'xarray_to_weatherbench_data', got, want_wb, info)
+        if T is not None:
+            # the covariate reader is documented for data "with time": surface fields are (.., time, lon, lat)
+            ok, got = guarded('xarray_to_dynamic_covariate_data', lambda: cov_fn(ds))
+            if ok: _same_leaves(ctx, 'xarray_to_dynamic_covariate_data', got, cov, info)
+            ok, got = guarded('xarray_to_state_and_dynamic_covariate_data', lambda: xu.xarray_to_state_and_dynamic_covariate_data(
+                ds, xarray_to_state_data_fn=wb_fn, xarray_to_dynamic_covariate_data_fn=cov_fn))
+            if ok:
+                ctx.oracle(C19_XR, isinstance(got, tuple) and len(got) == 2, dict(info, check='state_and_dynamic_covariate returns a pair'))
+                _same_leaves(ctx, 'xarray_to_state_and_dynamic_covariate_data[state]', got[0], want_wb, info)
+                _same_leaves(ctx, 'xarray_to_state_and_dynamic_covariate_data[covariates]', got[1], cov, info)
+            # covariates written by data_to_xarray keep an explicit `surface` axis and must come back unchanged too
+            ok, ds2 = guarded('data_to_xarray(covariates)', lambda: xu.data_to_xarray(dict(cov), **kw))
+            if ok:
+                ok, got = guarded('xarray_to_dynamic_covariate_data(surface axis kept)', lambda: cov_fn(ds2))
+                if ok: _same_leaves(ctx, 'xarray_to_dynamic_covariate_data(surface axis kept)', got, cov, info)
+        else:
+            ctx.count('readers:covariate reader skipped (no time axis)')
+        ok, got = guarded('xarray_to_state_and_dynamic_covariate_data(no covariate fn)', lambda: xu.xarray_to_state_and_dynamic_covariate_data(
+            ds, xarray_to_state_data_fn=wb_fn))
+        if ok:
+            ctx.oracle(C19_XR, got[1] == {}, dict(info, check='no covariate fn -> empty covariates'))
+            _same_leaves(ctx, 'xarray_to_state_and_dynamic_covariate_data(no covariate fn)[state]', got[0], want_wb, info)
+
+    # ---- aux features ----------------------------------------------------------------------------------------
+    aux = {xu.OROGRAPHY: _rd_values(rng, cs.horizontal.nodal_shape), xu.LAND_SEA_MASK: _rd_values(rng, cs.horizontal.nodal_shape),
+           xu.REF_TEMP_KEY: _rd_values(rng, (K,)), xu.REF_POTENTIAL_KEY: _rd_values(rng, (K,)),
+           xu.REFERENCE_DATETIME_KEY: np.datetime64('1979-01-01T00:00:00')}
+    ok, dsa = guarded('aux_features_to_xarray', lambda: xu.aux_features_to_xarray(dict(aux)))
+    if ok:
+        ok, got = guarded('aux_features_from_xarray', lambda: xu.aux_features_from_xarray(dsa))
+        if ok: _same_leaves(ctx, 'aux_features_from_xarray', got, aux, info)
+        ok, got = guarded('nodal_orography_from_ds', lambda: xu.nodal_orography_from_ds(dsa))
+        if ok: _same_leaves(ctx, 'nodal_orography_from_ds', {'o': got}, {'o': aux[xu.OROGRAPHY]}, info)
+
+
+# ---------------------------------------------------------------------------
 def generate(ctx):
     yield from gen_dicts(ctx)
     yield from gen_arrays(ctx)
@@ -1916,9 +2097,11 @@ def generate(ctx):
     yield from gen_dims(ctx)
     yield from gen_attrs_model(ctx)
     yield from gen_part4(ctx)
+    yield from gen_readers(ctx)
 
 
 RUNNERS = {'dict': r_dict, 'unflatten': r_unflatten, 'replace': r_replace, 'pack': r_pack, 'stack': r_stack,
            'split': r_split, 'split_axis': r_split_axis, 'concat': r_concat, 'spectral': r_spectral,
            'dims': r_dims, 'attrs_model': r_attrs_model}
 RUNNERS.update(RUNNERS_PART4)
+RUNNERS['xr_readers'] = _p4_guard(C19_XR, r_readers)
